@@ -75,42 +75,45 @@ type Cfg struct {
 
 // Obs is what the observer and the drivers recorded.
 type Obs struct {
-	CreateErr      error
-	Built          bool
-	ObserverRan    bool
-	CacheAtRead    string
-	CacheErr       string
-	ServerAtRead   string
-	ReadyAtRead    bool
-	DoneAtRead     bool
-	ErrAtRead      string
-	NodeCache      map[string]string
-	NodeReady      map[string]bool
-	NodeDone       map[string]bool
-	Lists          int
-	Watches        int
-	WatchRVs       []string
-	ListRVs        []int
-	ServerRV       int
-	MaxFlight      int
-	ReadyList      string // Cache().List() read by an observer the moment Ready() closed
-	ReadyLists     int    // completed List calls at that moment
-	ReadySeen      bool
-	CloseReturned  int
-	ClosesIssued   int
-	DoneAfterClose bool
-	ErrAfterDone   string
-	ErrNil         bool
-	Finished       bool
-	Clock          int64
-	PostAPI        []string // results of API calls issued after Done
-	RaceAPI        []string // results of API calls racing with shutdown
-	RaceDone       bool
-	LeafClosed     map[string]bool // leaf path -> its Events() channel was closed (consumer ran to the end)
-	LeafEvents     map[string][]string
-	ProbeDelivered map[string]bool
-	HistDone       bool
-	HistDoneAtRead bool // the whole server history had been applied when the observer looked
+	CreateErr           error
+	Built               bool
+	ObserverRan         bool
+	CacheAtRead         string
+	CacheErr            string
+	ServerAtRead        string
+	ReadyAtRead         bool
+	DoneAtRead          bool
+	ErrAtRead           string
+	NodeCache           map[string]string
+	NodeReady           map[string]bool
+	NodeDone            map[string]bool
+	Lists               int
+	Watches             int
+	WatchRVs            []string
+	ListRVs             []int
+	ListTimes           []int64 // virtual start time of every List call
+	InflightAtRead      int
+	PendingTimersAtRead int
+	ServerRV            int
+	MaxFlight           int
+	ReadyList           string // Cache().List() read by an observer the moment Ready() closed
+	ReadyLists          int    // completed List calls at that moment
+	ReadySeen           bool
+	CloseReturned       int
+	ClosesIssued        int
+	DoneAfterClose      bool
+	ErrAfterDone        string
+	ErrNil              bool
+	Finished            bool
+	Clock               int64
+	PostAPI             []string // results of API calls issued after Done
+	RaceAPI             []string // results of API calls racing with shutdown
+	RaceDone            bool
+	LeafClosed          map[string]bool // leaf path -> its Events() channel was closed (consumer ran to the end)
+	LeafEvents          map[string][]string
+	ProbeDelivered      map[string]bool
+	HistDone            bool
+	HistDoneAtRead      bool // the whole server history had been applied when the observer looked
 }
 
 type Inst struct {
@@ -281,7 +284,7 @@ func (in *Inst) Run() {
 		}()
 	}
 	// the observer
-	vs.SleepIdle(c.ReadAt)
+	in.O.PendingTimersAtRead = vs.SleepIdleArmed(c.ReadAt)
 	in.O.ObserverRan = true
 	in.O.HistDoneAtRead = in.O.HistDone
 	in.O.Clock = vs.ClockHere()
@@ -324,6 +327,8 @@ func (in *Inst) Run() {
 		in.O.Lists, in.O.Watches, in.O.MaxFlight = in.Srv.Lists, in.Srv.Watches, in.Srv.MaxFlight
 		in.O.WatchRVs = append([]string{}, in.Srv.WatchRVs...)
 		in.O.ListRVs = append([]int{}, in.Srv.ListRVs...)
+		in.O.ListTimes = append([]int64{}, in.Srv.ListTimes...)
+		in.O.InflightAtRead = in.Srv.Inflight
 		in.O.ServerRV = in.Srv.Version0()
 	})
 	// end of the run: shut the controller down (unless it is done already) and wait
